@@ -10,7 +10,7 @@ func SigmaFull() []Step {
 		// names, wildcard
 		a, b, Wild(),
 		// multi-names
-		Multi("a", "b"), Multi("b", "a"), Multi("a", "a"), Multi("a", "*"), Multi("*", "*"), Multi("b", "a", "c"),
+		Multi("a", "b"), Multi("b", "a"), Multi("a", "a"), Multi("a", "*"), Multi("*", "*"), Multi("b", "a", "c"), Multi("a", "b", "*"),
 		// recursive descent followed by each form
 		Rec(a), Rec(Wild()), Rec(Multi("a", "b")), Rec(Union(Idx(0))), Rec(Union(Idx(0), Idx(1))),
 		Rec(BWild()), Rec(Union(Slice2(N(0), N(2)))), Rec(Filter(Exists(at(a)))), Rec(Multi("*", "*")), Rec(Multi("a", "*")),
@@ -30,6 +30,8 @@ func SigmaFull() []Step {
 		Filter(Cmp("!=", OpP(at(b)), OpP(rt(b)))),
 		Filter(Cmp("<=", OpP(at(a)), LitNum(1))), Filter(Cmp("<=", LitNum(1), OpP(at(a)))),
 		Filter(NotExists(at(a, Filter(Exists(at(b)))))),
+		// the bare current node as an operand
+		Filter(Cmp(">", OpP(at()), LitNum(1))), Filter(Cmp("==", OpP(at()), LitStr("a"))), Filter(Cmp("!=", LitNum(1), OpP(at()))),
 		Filter(Cmp(">", OpP(at(a)), OpP(rt(b)))), Filter(Cmp("<", OpP(rt(b)), OpP(at(a)))),
 		// filters: combinations
 		Filter(And(Exists(at(a)), Exists(at(b)))), Filter(Or(Exists(at(a)), Exists(at(b)))),
